@@ -1161,8 +1161,13 @@ struct Engine
             if (into < target)
                 sim::clock_advance(target - into);
         }
-        if (op.days > 0)
-            sim::clock_advance((int64_t)op.days * sim::DAY);
+        if (op.days > 0) {
+            if (op.wj) {
+                sim::wall_jump((int64_t)op.days * sim::DAY); // the clock was set: only the wall clock moves
+                res.probes["wall_clock_steps"]++;
+            } else
+                sim::clock_advance((int64_t)op.days * sim::DAY);
+        }
         if (op.ms > 0)
             sim::clock_advance(op.ms * sim::MS);
     }
